@@ -11,6 +11,7 @@ Dir. B:  Trace_Dom: raised <=> SetAttr rejects; the whole tree (all live trees) 
          rejection and exactly updated on acceptance; == / != = equality of the model trees;
          equal trees serialise to identical bytes.
 """
+import copy
 import random
 
 from harness import domdriver, domgen, pools
@@ -129,6 +130,42 @@ def run(run, replay=None):
         h.cmp(a, a)
         traces.append(h.trace(n, CHK))
         run.count(('eq', seed), nontrivial=True)
+        n += 1
+    # (4) equality does not depend on the ORDER in which attributes were assigned (nor on how the tree came about:
+    #     assignment after construction, constructor keywords, or parsing its own serialisation)
+    for _ in range(40 if quick else 400):
+        h = domdriver.History(cat)
+        attrs0 = domgen.rand_container_attrs(rng, 0, rich=False)
+        attrs1 = domgen.rand_container_attrs(rng, 1, rich=False)
+        attrs2 = domgen.rand_container_attrs(rng, 2, rich=False)
+        for order in (1, -1):
+            h.new()
+            t = len(h.trees)
+            h.addc(t)
+            h.addf(t, 1)
+            for (ci, fi, attrs) in ((0, 0, attrs0), (1, 0, attrs1), (1, 1, attrs2)):
+                items = list(attrs.items())[::order]
+                if order == -1 and len(items) > 2:
+                    rng.shuffle(items)
+                for k, v in items:
+                    h.set(t, ci, fi, k, copy.deepcopy(v))
+        h.cmp(1, 2)
+        h.cmp(2, 1)
+        h.new(**copy.deepcopy(attrs0))                  # the same main section through constructor keywords
+        t = len(h.trees)
+        h.addc(t, **copy.deepcopy(attrs1))
+        h.addf(t, 1, **copy.deepcopy(attrs2))
+        h.cmp(1, t)
+        e = h.ser(1)
+        if e['status'] == 'ok':
+            p = h.parse(bytes(e['bytes']))
+            if p['status'] == 'ok':
+                e2 = h.ser(len(h.trees))
+                if e2['status'] == 'ok':
+                    h.parse(bytes(e2['bytes']))         # two trees that both came from parsing the same bytes...
+                    h.cmp(len(h.trees) - 1, len(h.trees))
+        traces.append(h.trace(n, CHK))
+        run.count(('order', n), nontrivial=True)
         n += 1
     run.sample({'attributes': ATTRS, 'values': [repr(v) for v in VALUES]})
     run.sample({'equality_history': [(e['k'], e['name'] or e['sec'], e['eq']) for e in traces[-1]['ev'] if e['k'] in ('cmp', 'set', 'mut', 'opt')]})
